@@ -63,6 +63,32 @@ T = {
  'C28-m1': ('C28', 'price record keeps Off=true when recovery completes: drop >= 10%, full recovery, then a large rise at the very next update', 'C28 price-record-wrong/update/recovery-complete (1 of 2 seeds)'),
  'C28-m2': ('C28', 'emission counter counts only the validators share in off/recovery periods', 'C28 emission-step-wrong'),
 
+ # batch 5 (second round: authors were told what the first two seeds of the property were and had to differ)
+ 'C01-m3': ('C01', 'Lock with DueBlock equal to the height of the delivering block accepted: coins filed under a height that is never released', 'C01 base-delta'),
+ 'C01-m4': ('C01', 'block reward added to a stale local emission value: extra coins of locked (x3) stakes are minted but not counted (needs LockStake, i.e. heights above 10197360)', 'C01 base-delta (locktime family)'),
+ 'C02-m3': ('C02', 'owner with a waitlist entry W and a stake S of the same candidate and coin unbonds V with W < V, S < V <= W+S: stake goes negative, Commit dies', 'C02 negative/value-at-commit (after the generator aimed unbonds across waitlist+stake and the node\'s "cannot encode negative" Commit panic was attributed to C02); first run missed'),
+ 'C02-m4': ('C02', 'failed RedeemCheck whose issuer owns less than the failed-tx fee while the redeemer owns more: issuer balance negative', 'C02 negative/balance-at-commit'),
+ 'C03-m3': ('C03', 'failed-tx fee of a rejected check redemption gated and capped by the redeemer\'s balance instead of the issuer\'s', 'C03 failed-tx-fee-mismatch'),
+ 'C03-m4': ('C03', 'pool copy used for pre-checks shares its reserves with the live pool: a rejected tx with the fee coin\'s pool in its route moves the pool', 'C03 failed-tx-changed-state-without-fee [pool/...]'),
+ 'C05-m3': ('C05', 'dust remainder of an almost filled order refunded to the zero address (clone without owner)', 'C05 unexplained-decrease/escrow'),
+ 'C05-m4': ('C05', 'control address of a candidate may send EditCandidate (owner check replaced by control check)', 'C05 candidate-changed-by-non-owner'),
+ 'C09-m3': ('C09', 'grace period of a voted network update not rebuilt on reopening: update at H > genesis, restart, validator crosses the absence limit in (initial+120, H+120]', 'C09 responses-differ-after-restart (after the voted-update + restart + absence family was added); first run missed'),
+ 'C09-m4': ('C09', 'block-time list not reloaded by its getter: max gas wrong in the first block after a restart while blocks are slow', 'C09 responses-differ-after-restart/max gas'),
+ 'C11-m3': ('C11', 'imported next_order_id never written: disk export / restart right after InitChain restarts order ids at 1', 'C11 behaviour-differs / export-after-follow:/next_order_id'),
+ 'C11-m4': ('C11', 'frozen fund of a candidate that changed its key afterwards loses its candidate id at import', 'C11 reexport-differs//frozen_funds'),
+ 'C13-m3': ('C13', 'CreateToken accepts the ticker LP-<n> of a pool that does not exist yet: the stranger owns the later pool\'s token', 'C22 duplicate-active-ticker / pool-token-minted (after the C22 generator started to try pool-token tickers); C13 itself (package-level engines) does not see transactions; first run missed'),
+ 'C13-m4': ('C13', 'buy of exactly reserve + volume of the completely filled orders pays out the whole reserve for nothing', 'C13 panic / k (after the aimed amount "reserve plus first k orders" was added); first run missed'),
+ 'C14-m3': ('C14', 'all 16 orders of the first on-disk page of a side closed one by one inside one block: the book looks empty, a trade passes over live orders', 'C14 priority/pool-traded-through-order (after the mass-cancel operation and the traded-through oracle were added); first run missed'),
+ 'C14-m4': ('C14', 'dust closing needs BOTH volumes below the minimum: a remainder with one side below 1e10 stays open', 'C14 book-mismatch/closed-order-visible'),
+ 'C16-m3': ('C16', 'Lock with DueBlock equal to the delivering block accepted (same change as C01-m3 by another author)', 'C16 fund-overdue/lock, lock-fund-mismatch'),
+ 'C16-m4': ('C16', 'FrozenFunds.GetOrNew looks only in the cache: after a restart a second fund for a height that already has a committed record overwrites it', 'C16 fund-vanished-early (after restarts, Locks aimed at occupied heights, and pre-tx fund lists taken from the disk export instead of the accessor - the accessor read had re-warmed the cache and masked the defect); first run missed'),
+ 'C17-m3': ('C17', 'cut to 64 applied before the online/stake filter: an offline candidate inside the first 64 burns a slot', 'C17 set/missing-validator, set/size'),
+ 'C17-m4': ('C17', 'validator leaving with nobody entering does not mark the list dirty: removed validator still on disk', 'C17 set/tendermint-missing, set/unexpected-validator'),
+ 'C19-m3': ('C19', 'presence map not reset per block: a validator that left and came back accrues without signing in the two blocks after re-entry', 'C19 accrual/absent'),
+ 'C19-m4': ('C19', 'x3 reward still paid at the payout of the exact block a lock ends', 'C19 overpaid/emission-without-locked-stakes'),
+ 'C29-m3': ('C29', 'restored node gets a grace period at its restore height: a validator crossing the absence limit there is not jailed', 'C29 restored-node-differs (after the restore-then-absence family beyond height initial+120 was added); first run missed'),
+ 'C29-m4': ('C29', 'snapshot exports the current tree version instead of its height: race between the snapshot goroutine and the next commit', 'C29 snapshot-contents-differ/metadata (after the second producer started to execute snapshot block and next block back to back on one processor); first run missed'),
+
 }
 import sys
 for sid, (prop, needs, caught) in T.items():
